@@ -128,6 +128,7 @@ func propC05(w *World, r *Report) {
 	checkWidthOperands(w, r)
 	checkCallDepth(w, r, p, fn, caseConsts)
 	checkPerFD(w, r)
+	checkDecodeSem(w, r)
 
 	// ---- safety of the interpreter (shared with C02)
 	var fns []*ssa.Function
